@@ -1,4 +1,5 @@
 import json,re,sys,subprocess
+import os as _os; _os.environ["VERIF_NO_EVIDENCE"] = "1"   # never let a run against a modified tree rewrite evidence/
 bid=sys.argv[1]; ids=sys.argv[2:]
 bv=[b for b in json.load(open('/verif/selftest/benign.json')) if b['id']==bid][0]
 p='/repo/'+bv['file']; text=open(p).read()
